@@ -74,6 +74,8 @@ def shapes(rng, tier):
         (b"/fmt%{cmdline}%s%n", [b"%{filename}", b"%s%n%{"], [b"X=%{env:X}"]),
         (b"relative/path", [b"-c", b"echo hi"], None),
         (b"/e", [b"e"], []),
+        # a record larger than a small thread stack (the library may not build it on the caller's stack)
+        (b"/big", [b"x" * 20000] * 12, [b"B=1"]),
     ]
     for _ in range(4):
         n = rng.choice([1, 2, 7, 40])
@@ -175,6 +177,12 @@ def check(run):
                 k += 1
         if name.endswith("smallstack"):
             script.insert(7, "stack\t192")
+        if name in ("drop", "pass"):
+            script.insert(7, "stack\t8192")        # every call from a fresh thread: nothing a call leaves locked may stop the next thread's call
+        if name == "file":
+            script.insert(7, "errno\t4")           # the caller arrives with errno == EINTR (an interrupted pause/read before the exec)
+        if name == "stdout":
+            script.insert(7, "errno\t34")          # ... or ERANGE
         if name.startswith("spawns-statlike"):
             script.insert(7, "comm\t" + hexs(b") S @PID@"))
         if name.endswith("libcbuf"):
